@@ -2,6 +2,7 @@ package fw
 
 import (
 	"fmt"
+	"strings"
 	"time"
 )
 
@@ -299,6 +300,13 @@ func CheckC11(e *Env) int {
 	reportPool(rep, results, "C02", "C10", "C01", "C12")
 	addSamples(rep, results, 2)
 	cases = append(cases, c11Negatives()...)
+	// a binding made by a wrapper set (or met by another injector) does not satisfy the interface
+	// for an injector that cannot reach it
+	for _, rc := range crossInjectorCases() {
+		if strings.Contains(rc.Cell, "binding-in-wrapper-set") {
+			cases = append(cases, rc)
+		}
+	}
 	runRejectCases(e, rep, cases, "c11n")
 	if rep.Counters["inputs_checked"] == 0 {
 		rep.Incon = append(rep.Incon, "no consumer of a bound interface was observed")
